@@ -3687,9 +3687,16 @@ async def _helper_rename_folder(mbox: Mailbox, new_name: str) -> None:
     # Get all the mailboxes we have to rename (this mbox may have children)
     #
     to_change = {}
+    # NOTE: The children are the mailboxes whose name begins with the old name
+    #       and a '/', compared exactly: `LIKE` is not case sensitive and treats
+    #       `_` and `%` in the name as wild cards, which would also rename
+    #       mailboxes that are no children of this one (`A/x` for `a`, `axb/x`
+    #       for `a_b`.)
+    #
+    prefix = f"{old_name}/"
     async for mbox_old_name, mbox_id in srvr.db.query(
-        "SELECT name,id FROM mailboxes WHERE name=? OR name LIKE ?",
-        (old_name, f"{old_name}/%"),
+        "SELECT name,id FROM mailboxes WHERE name=? OR substr(name,1,?)=?",
+        (old_name, len(prefix), prefix),
     ):
         mbox_new_name = new_name + mbox_old_name[len(old_name) :]
         to_change[mbox_old_name] = (mbox_new_name, mbox_id)
